@@ -367,11 +367,13 @@ func runTable(seed uint64, engine string, conc bool) {
 			b := ts.beh[n.ID()]
 			ev := pingEv{id: n.ID(), gen: ts.gen[n.ID()], seqAtPing: n.Seq()}
 			if b == behSlowAlive || b == behSlowDead || b == behSlowNewSeq || b == behSlowNewEndpoint {
+				ts.w.fault("slow_peer_answer")
 				time.Sleep(time.Duration(300+int(n.ID()[31])*30) * time.Millisecond)
 			}
 			switch b {
 			case behDead, behSlowDead:
 				ts.pings = append(ts.pings, ev)
+				ts.w.fault("liveness_ping_unanswered")
 				return 0, errors.New("timeout")
 			case behNewSeqEnrLost:
 				ev.responded = true // the liveness check itself succeeded
@@ -402,6 +404,7 @@ func runTable(seed uint64, engine string, conc bool) {
 		RequestENRFn: func(n *enode.Node) (*enode.Node, error) {
 			if ts.enrLost[n.ID()] {
 				delete(ts.enrLost, n.ID())
+				ts.w.fault("record_request_lost")
 				return nil, errors.New("RPC timeout")
 			}
 			// the record announced by the ping
